@@ -58,6 +58,7 @@ type State struct {
 	pc    string
 	ghost map[string]string
 	nonNil map[string]bool
+	symHeaps map[string]bool // non-nil: heaps are bound variables (recursive predicate definitions)
 }
 
 func (s *State) clone() *State {
@@ -93,6 +94,11 @@ func unsup(format string, a ...interface{}) {
 // initial heap constant on first use.
 func (x *Exec) heap(st *State, t types.Type) string {
 	k := x.te.HeapKey(t)
+	if st.symHeaps != nil {
+		st.symHeaps[k] = true
+		x.heapTypes[k] = t
+		return symHeapName(k)
+	}
 	if h, ok := st.heaps[k]; ok {
 		return h
 	}
@@ -142,7 +148,19 @@ func (x *Exec) newRegion(st *State, t types.Type) string {
 	return r
 }
 
+// flushFacts moves pending definitional instances (recursive-predicate
+// unfoldings) into the path condition.
+func (x *Exec) flushFacts(st *State) {
+	if len(x.pendingFacts) == 0 {
+		return
+	}
+	fs := x.pendingFacts
+	x.pendingFacts = nil
+	st.pc = x.S.Define("pc", "Bool", And(append([]string{st.pc}, fs...)...))
+}
+
 func (x *Exec) assume(st *State, cond string) {
+	x.flushFacts(st)
 	if cond == "true" {
 		return
 	}
